@@ -142,7 +142,7 @@ func ruleSchemaLookup(c *core.Ctx) {
 	var fnCall *ast.CallExpr
 	ast.Inspect(d.Decl.Body, func(n ast.Node) bool {
 		if call, ok := n.(*ast.CallExpr); ok {
-			if id, ok := call.Fun.(*ast.Ident); ok && id.Name == "fn" {
+			if isParamFuncCall(d, call) {
 				fnCall = call
 			}
 		}
@@ -231,6 +231,18 @@ func ruleStrictGuards(c *core.Ctx) {
 			}
 			return true
 		})
+		// a schema violation that is built must be returned on some path (strict mode): building it
+		// and only logging it means strict mode accepts the write
+		for ev := range errVars {
+			returned := false
+			ast.Inspect(d.Decl.Body, func(x ast.Node) bool {
+				if r, ok := x.(*ast.ReturnStmt); ok && len(r.Results) > 0 && usesObj(info, r.Results[len(r.Results)-1], ev) {
+					returned = true
+				}
+				return true
+			})
+			c.Check(returned, "GUARD/strict", fmt.Sprintf("%s:built-violation-returned:%s", key, ev.Name()), pos(c, d.Decl), "a built schema violation is returned under strict mode", "a schema violation is constructed in "+d.Obj.Name()+" but never returned: strict mode accepts the write it must refuse")
+		}
 		occ := 0
 		ast.Inspect(d.Decl.Body, func(x ast.Node) bool {
 			if _, ok := x.(*ast.FuncLit); ok {
